@@ -211,6 +211,7 @@ func enumGenerated(R *vlib.Out, prop string) {
 					hp, _ := popSel(t.Hdr, pred, &idx, entries, route)
 					bp, _ := popSel(t.Body, pred, &idx, entries, route)
 					tp, _ := popSel(t.Trl, pred, &idx, entries, route)
+					t.Unit = 1000000 + unit
 					checkSer(R, prop, t, hp, bp, tp)
 				}
 			}
